@@ -180,12 +180,21 @@ def probe_case(rng, kind, ivcls):
 def set_item(case, kind, iv, rng=None):
     case["constraints"], case["relations"], case["penalties"], case["weights"] = [], [], [], []
     case["parameters"].pop("rel.1", None)
+    case["parameters"].pop("rel.2", None)
     case["parameters"].pop("pen.1", None)
     if kind in ("zero", "only"):
         case["constraints"] = [{"type": kind, "target": "b", "interval": iv}]
     elif kind == "relation":
         case["parameters"]["rel.1"] = {"value": 0.6180339887, "vary": False}
         case["relations"] = [{"source": "a", "target": "c", "parameter": "rel.1", "interval": iv}]
+        if rng is not None and rng.integers(2):
+            # a second relation for the SAME target whose interval lies far beyond every axis (acts nowhere), listed after
+            # or before the probe: each relation acts on its own interval, whatever else names that target
+            far = max(max(d["g"]) for d in case["datasets"]) + 1000.0
+            case["parameters"]["rel.2"] = {"value": 1.4142135623, "vary": False}
+            other = {"source": "a", "target": "c", "parameter": "rel.2", "interval": [far, far + 1.0]}
+            case["relations"] = case["relations"] + [other] if rng.integers(2) else [other] + case["relations"]
+            case["features"]["second_relation_same_target"] = True
     elif kind in ("pen_source", "pen_target"):
         case["parameters"]["pen.1"] = {"value": 1.0, "vary": False}
         full = [[-float("inf"), float("inf")]]
@@ -354,6 +363,14 @@ def run_probe(case, rec):
         rec.violation(f"{kind}:raises:{type(e).__name__}:{case['features']['ivcls']}", jc, f"{type(e).__name__}: {str(e)[:300]}")
         return None
     judge_sets(jc, kind, sets, rec, jc)
+    if kind in ("zero", "only", "relation"):
+        # what the result REPORTS for the item (zeros / the relation between two clps) is what the fit USED: the result
+        # datasets satisfy C03's identities (fitted data == matrix @ clp, clps == the reference solution of the reduced problem)
+        from vf.props import c03
+
+        for mech, detail in c03.check_result(jc, result, rec, jc)[:1]:
+            rec.violation(f"{kind}:reported-item-not-what-the-fit-used:{mech.split(':')[0]}", jc, detail)
+        rec.count("results_checked_against_fit")
     return sets
 
 
@@ -400,14 +417,21 @@ def run_reassign(case, rec, rng):
     jc2 = S.jsonable_case(dict(case))
     iv2 = widen(rng, case["iv"])
     jc2["iv"] = iv2
-    set_item(jc2, kind, S.jsonable_case({"iv": iv2})["iv"])
+    if kind == "relation" and len(jc2["relations"]) > 1:
+        # keep the second relation of the same target; only the probe's interval changes
+        for r in jc2["relations"]:
+            if r["parameter"] == "rel.1":
+                r["interval"] = S.jsonable_case({"iv": iv2})["iv"]
+    else:
+        set_item(jc2, kind, S.jsonable_case({"iv": iv2})["iv"])
 
     def prepare(scheme):
         first = S.build_scheme(jc1, maximum_number_function_evaluations=1)
         with warnings.catch_warnings():
             warnings.simplefilter("ignore")
             optimize(first, verbose=False, raise_exception=True)
-        item = (first.model.clp_relations if kind == "relation" else first.model.clp_constraints)[0]
+        items = first.model.clp_relations if kind == "relation" else first.model.clp_constraints
+        item = next((x for x in items if kind == "relation" and str(getattr(x.parameter, "label", x.parameter)) == "rel.1"), items[0])
         item.interval = S.as_interval(jc2["iv"])
         scheme.model = first.model
 
